@@ -189,6 +189,23 @@ func init() {
 				}
 			}
 		}
+		// the slice / map helpers on decoded trees with invalid UTF-8 at every depth (the
+		// argument must not be modified: the harness compares it before and after)
+		bad := []string{"\"a\xffb\"", "\"\xff\"", "\"\xc3\"", "\"ok\"", "\"\xed\xa0\x80x\"", "1", "null"}
+		for i := 0; i < 400; i++ {
+			var mk func(d int) string
+			mk = func(d int) string {
+				if d == 0 || r.chance(1, 3) {
+					return r.pick(bad)
+				}
+				if r.chance(1, 2) {
+					return "[" + mk(d-1) + "," + mk(d-1) + "]"
+				}
+				return "{\"k" + fmt.Sprint(r.intn(3)) + "\":" + mk(d-1) + ",\"\xfe" + fmt.Sprint(r.intn(9)) + "\":" + mk(d-1) + "}"
+			}
+			doc := mk(1 + r.intn(4))
+			e.emit("rvc %s", hs([]byte(doc)))
+		}
 		docs := 4000
 		if thorough {
 			docs = 100000
